@@ -526,7 +526,17 @@ func TestC16Race(t *testing.T) {
 		// whichever goroutine and however the lookups coincide, reports an error
 		failName := "rfail.example"
 		g.addrs(failName, "a_fail", 1)
-		z.RCode[dnsfx.Key(failName, 65)] = []int{2, 5}[rapid.IntRange(0, 1).Draw(t, "fail_rcode")]
+		// a named code, or one of the thousands of (extended) codes without a name of their own -
+		// most cases meet one the process has not seen before
+		frc := []int{2, 5}[rapid.IntRange(0, 1).Draw(t, "fail_rcode")]
+		if rapid.IntRange(0, 3).Draw(t, "fail_rcode_unnamed") != 0 {
+			frc = 6 + uniform(t, "fail_rcode_value", 4090)
+		}
+		z.RCode[dnsfx.Key(failName, 65)] = frc
+		// and a second failing name with a code of its own: lookups of different names share no lock
+		failName2 := "rfail2.example"
+		g.addrs(failName2, "a_fail2", 1)
+		z.RCode[dnsfx.Key(failName2, 65)] = 6 + uniform(t, "fail_rcode_value2", 4090)
 		ng := rapid.IntRange(2, 24).Draw(t, "goroutines")
 		runtime.GOMAXPROCS([]int{2, 4, 8, 16}[rapid.IntRange(0, 3).Draw(t, "gomaxprocs")])
 		iters := rapid.IntRange(2, 6).Draw(t, "iters")
@@ -605,12 +615,13 @@ func TestC16Race(t *testing.T) {
 					defer wg.Done()
 					for _, p := range plan {
 						if p >= 8 {
+							fn := []string{failName, failName2}[p&1]
 							ctx, cancel := context.WithTimeout(context.Background(), 30*time.Second)
-							res, err := r.Resolve(ctx, failName)
+							res, err := r.Resolve(ctx, fn)
 							cancel()
 							if err == nil {
 								mu.Lock()
-								viol = fmt.Sprintf("Resolve(%s) = %+v, nil although the upstream only ever fails the HTTPS lookup", failName, res)
+								viol = fmt.Sprintf("Resolve(%s) = %+v, nil although the upstream only ever fails the HTTPS lookup", fn, res)
 								mu.Unlock()
 							}
 							continue
